@@ -24,6 +24,10 @@ def gen_values(rng, n, vtype):
         return [np.float64(v) for v in gen_values(rng, n, "float")]
     if vtype == "tuple":
         return [tuple(t) for t in rng.sample([(1, 2), (2, 1), (0,), (), ("a", 1), (3, 4, 5)], n)]
+    if vtype == "longfloat":
+        # floats that need all their digits (sums, thirds, neighbours that differ only beyond the 12th decimal)
+        pool = [0.1 + 0.2, 0.3, 1 / 3, 2 / 3, 0.1 * 3 + 1e-13, 1 / 7, 3.141592653589793, 0.7000000000000001, 0.7, 1e-13, 2e-13, -1 / 3]
+        return rng.sample(pool, n)
     if vtype == "strx":
         return rng.sample(STR_POOL + ["", " ", "None", "nan"], n)
     if vtype == "mixed":
@@ -49,7 +53,7 @@ def gen_vtype(rng, allow_mixed=False, exotic=False):
     r = rng.random()
     if exotic and r < 0.25:
         # legitimate but unusual argument values: booleans, numpy scalars, tuples, empty / odd strings
-        return rng.choice(["bool", "npint", "npfloat", "tuple", "strx"])
+        return rng.choice(["bool", "npint", "npfloat", "tuple", "strx", "longfloat", "longfloat"])
     if allow_mixed and r < 0.06:
         return "mixed"
     return "int" if r < 0.45 else "float" if r < 0.75 else "str"
